@@ -725,7 +725,8 @@ func interleavedParses(run *vk.Run) {
 		}
 		b, err := marshal(h)
 		if err != nil {
-			vk.Infra("%v", err)
+			run.Drift("interleaved parses: a well-formed header does not marshal: %v (judged by the round-trip part)", err)
+			return
 		}
 		bases = append(bases, b)
 	}
